@@ -460,6 +460,7 @@ func c12R33(ic *IC, r *Report) {
 }
 
 func init() {
+	ruleText["R12.37"] = "= R01.42: a variable redeclared by a multiple short declaration keeps its type, and the new value is checked against it"
 	ruleText["R12.35"] = "only a variable, an indirection, a field or an element can be assigned: each case of cfg that stores into its operand - the assignStmt/defineStmt case for every destination of its pair loop, and the incDecStmt case - tests the form of the destination (isDestExpr) under a condition that reports an error; the two cases are siblings and must agree (the incDecStmt case also refuses a constant operand, as the assignment case does)"
 }
 
